@@ -1,0 +1,120 @@
+// Verification hooks for deterministic simulation.
+//
+// Compiled only with `--cfg maidsafe_safe_network_verif`; the shipped crate never contains this module.
+// Nothing here changes behaviour unless a harness has called `gates_install()` on the current thread.
+
+use std::cell::RefCell;
+use tokio::sync::oneshot;
+
+pub use crate::cmd::{LocalSwarmCmd, NetworkSwarmCmd};
+pub use crate::record_store::NodeRecordStoreConfig;
+pub use crate::record_store_api::UnifiedRecordStore;
+pub use crate::replication_fetcher::verif::VerifFetcher;
+pub use crate::driver::VerifPendingGet;
+
+/// A spawned background task that is parked at its gate and waits for the simulator.
+#[derive(Debug, Clone)]
+pub struct GateInfo {
+    pub id: u64,
+    pub site: &'static str,
+    pub detail: String,
+}
+
+struct Pending {
+    info: GateInfo,
+    tx: oneshot::Sender<()>,
+}
+
+struct Gates {
+    next_id: u64,
+    registered: u64,
+    pending: Vec<Pending>,
+}
+
+thread_local! {
+    static GATES: RefCell<Option<Gates>> = const { RefCell::new(None) };
+}
+
+/// Install a gate controller on the current thread. From now on every gated task spawned on this
+/// thread parks until `gate_open` is called for it.
+pub fn gates_install() {
+    GATES.with(|g| {
+        *g.borrow_mut() = Some(Gates {
+            next_id: 0,
+            registered: 0,
+            pending: Vec::new(),
+        })
+    });
+}
+
+/// Remove the controller; parked tasks stay parked for ever (they are dropped with the runtime).
+pub fn gates_uninstall() {
+    GATES.with(|g| *g.borrow_mut() = None);
+}
+
+/// Tasks currently parked, in registration order.
+pub fn gates_pending() -> Vec<GateInfo> {
+    GATES.with(|g| {
+        g.borrow()
+            .as_ref()
+            .map(|g| g.pending.iter().map(|p| p.info.clone()).collect())
+            .unwrap_or_default()
+    })
+}
+
+/// Total number of gates registered so far on this thread (monotone; used for quiescence detection).
+pub fn gates_registered() -> u64 {
+    GATES.with(|g| g.borrow().as_ref().map(|g| g.registered).unwrap_or(0))
+}
+
+/// Let the task with this id run. Returns false if no such task is parked.
+pub fn gate_open(id: u64) -> bool {
+    let pending = GATES.with(|g| {
+        let mut g = g.borrow_mut();
+        let g = g.as_mut()?;
+        let pos = g.pending.iter().position(|p| p.info.id == id)?;
+        Some(g.pending.remove(pos))
+    });
+    match pending {
+        Some(p) => p.tx.send(()).is_ok(),
+        None => false,
+    }
+}
+
+/// Forget a parked task without ever running it (a lost task: models a crash before it ran).
+pub fn gate_discard(id: u64) -> bool {
+    GATES.with(|g| {
+        let mut g = g.borrow_mut();
+        let Some(g) = g.as_mut() else { return false };
+        let Some(pos) = g.pending.iter().position(|p| p.info.id == id) else {
+            return false;
+        };
+        // keep the sender alive inside a leaked box so the task stays parked and never runs
+        let p = g.pending.remove(pos);
+        std::mem::forget(p.tx);
+        true
+    })
+}
+
+/// First statement of every gated spawned closure.
+pub async fn gate(site: &'static str, detail: String) {
+    let rx = GATES.with(|g| {
+        let mut g = g.borrow_mut();
+        let g = g.as_mut()?;
+        let (tx, rx) = oneshot::channel();
+        let id = g.next_id;
+        g.next_id += 1;
+        g.registered += 1;
+        g.pending.push(Pending {
+            info: GateInfo { id, site, detail },
+            tx,
+        });
+        Some(rx)
+    });
+    if let Some(rx) = rx {
+        if rx.await.is_err() {
+            // controller went away: this task must never run
+            std::future::pending::<()>().await;
+        }
+    }
+}
